@@ -10,6 +10,8 @@ import (
 	"fmt"
 	"net/http"
 	"net/url"
+	"os"
+	"path/filepath"
 	"strings"
 	"testing"
 
@@ -204,7 +206,7 @@ func TestVerifC08(t *testing.T) {
 		{"traffic_u0"}, {"traffic_u"}, {"traffic_u10,"}, {"traffic_,"}, {"traffic_u10,d5"}, {"statuscode_[{cycle:1,rsq:0,code:404}]"}, {"statuscode_[{}]"}, {"statuscode_[{cycle:30}]"},
 		{"statuscode_[{cycle:30,rsq:99,code:404,rep:}]"}, {"statuscode_[{rsq:0,code:404}]"}, {"statuscode_[{code:404}]"}, {"statuscode_[{cycle:30,rsq:0,code:404},{rsq:1,code:503}]"}, {"statuscode_[{cycle:30,rsq:0,code:404},{cycle:0,rsq:1,code:503}]"}, {"annexI_foo"}, {"annexI_="}, {"annexI_a=b=c"}, {"stoprel_abc"}, {"stoprel_"}, {"startrel_"}, {"stop_abc"},
 		{"drm_unknown"}, {"eccp_xyz"}, {"eccp_"}, {"patch_0"}, {"patch_-1"}, {"scte35_1"}, {"scte35_3"}, {"snr_-1"}, {"snr_4294967295"}, {"snr_4294967296"},
-		{"start_-1"}, {"start_99999999999"}, {"timeoffset_1e308"}, {"timeoffset_-1e308"}, {"ato_-1"}, {"ato_1e308"}, {"ato_NaN"}, {"ltgt_-1"}, {"tsbd_0"},
+		{"start_-1"}, {"start_99999999999"}, {"timeoffset_1e308"}, {"timeoffset_-1e308"}, {"ato_-1"}, {"chunkdur_0.5", "ato_-1"}, {"chunkdur_1", "ato_-2147481.648"}, {"chunkdur_1", "ato_-4294965.296"}, {"chunkdur_1", "ato_-1e12"}, {"ato_1e308"}, {"ato_NaN"}, {"ltgt_-1"}, {"tsbd_0"},
 	} {
 		addCfg(parts, false, "hazard")
 	}
@@ -306,7 +308,8 @@ func TestVerifC08(t *testing.T) {
 	}
 	// /patch
 	for _, pt := range []string{"", "abc", "1970-01-01T00:00:00Z", "1970-01-01T00:01:30Z", "1970-01-01T00:01:38Z", "1970-01-01T00:01:40Z", "2070-01-01T00:00:00Z", "1970-01-01T00:01:30", "0", "-1"} {
-		for _, p := range [][]string{{"patch_60", "segtimeline_1"}, {"patch_60", "segtimelinenr_1"}, {"patch_60"}, {"segtimeline_1"}, {"patch_60", "segtimeline_1", "periods_60"}, {"patch_abc", "segtimeline_1"}} {
+		for _, p := range [][]string{{"patch_60", "segtimeline_1"}, {"patch_60", "segtimelinenr_1"}, {"patch_60"}, {"segtimeline_1"}, {"patch_60", "segtimeline_1", "periods_60"}, {"patch_abc", "segtimeline_1"},
+			{"patch_60", "chunkdur_0.5", "ato_1.5"}, {"chunkdur_0.5", "ato_1.5"}, {"patch_60", "segtimeline_1", "timesubsstpp_en"}, {"patch_60", "eccp_cenc"}} {
 			for _, ep := range []string{"Manifest.mpp", "Manifest.mpd", "nope.mpp", "V300/40.m4s"} {
 				q := "nowMS=100000"
 				if pt != "" {
@@ -381,6 +384,37 @@ func TestVerifC08(t *testing.T) {
 			c2 := c
 			c2.label += "-nodrmcfg"
 			c08Run(rep, srvNoDRM, c2)
+		}
+	}
+
+	// asset directories with unusual but legal names (a media or MPD extension, a space, a configuration-like name)
+	if sh, _ := vh.Shard(); sh == 0 {
+		oroot, err := os.MkdirTemp(os.Getenv("VERIF_SCRATCH"), "c08names")
+		if err != nil {
+			t.Fatalf("scratch: %v", err)
+		}
+		defer os.RemoveAll(oroot)
+		names := []string{"clip.mp4", "dir.mpd", "x.m4s", "sp ace", "tsbd_5", "V300", "Manifest.mpd", "a.jpg"}
+		for _, nm := range names {
+			if err := os.CopyFS(filepath.Join(oroot, nm), os.DirFS(filepath.Join(vBundledRoot, "testpic_2s"))); err != nil {
+				t.Fatalf("copy: %v", err)
+			}
+		}
+		osrv, err := vNewServer(oroot, "", false)
+		if err != nil {
+			rep.Violate("C08.a", "startup-fails:odd-asset-names", fmt.Sprintf("server on a VoD root with asset directories %q does not start: %v", names, err), nil)
+		} else {
+			for _, nm := range names {
+				for _, pre := range []string{"/livesim2", "/livesim2/segtimeline_1", "/livesim2/traffic_u10", "/vod", "/patch/livesim2/patch_60/segtimeline_1"} {
+					for _, ep := range []string{"", "/", "/Manifest.mpd", "/V300/init.mp4", "/V300/40.m4s", "/A48/40.m4s", "/thumbs/40.jpg", "/" + nm, "/bu0/V300/40.m4s"} {
+						u := fmt.Sprintf("%s/%s%s?nowMS=%d", pre, url.PathEscape(nm), ep, now)
+						if strings.HasPrefix(pre, "/patch") {
+							u += "&publishTime=1970-01-01T00:01:30Z"
+						}
+						c08Run(rep, osrv, c08Case{method: "GET", url: u, label: "odd-asset-name", handler: "livesim"})
+					}
+				}
+			}
 		}
 	}
 }
